@@ -25,3 +25,5 @@ else git -C /repo worktree remove --force "$R"; fi
 /venv/bin/python /verif/tools/extract_facts.py /repo /verif/coq/theories/Extracted.v
 /venv/bin/python /verif/tools/translate_identify.py /repo /verif/coq/theories >/dev/null 2>&1 || true
 /venv/bin/python /verif/tools/translate_traversal.py /repo /verif/coq/theories >/dev/null 2>&1 || true
+/venv/bin/python /verif/tools/translate_ts_summary.py /repo /verif/coq/theories >/dev/null 2>&1 || true
+/venv/bin/python /verif/tools/translate_ts_extend.py /repo /verif/coq/theories >/dev/null 2>&1 || true
